@@ -321,7 +321,9 @@ theorem Full_start_no_panic (cfg : Cfg) (s : St) (hJ : J cfg s)
     (nm : Bytes) (attrs : List (Bytes × Bytes × AttrOutline)) (ns' : Model.Ns) (sc : Bool) (raw : Bytes)
     (src : Range) (base : Nat) :
     ((ctlStep cfg s (.start name ns info (.startTag nm attrs ns' sc raw src base))).2 = none →
-      J cfg (ctlStep cfg s (.start name ns info (.startTag nm attrs ns' sc raw src base))).1) ∧
+      J cfg (ctlStep cfg s (.start name ns info (.startTag nm attrs ns' sc raw src base))).1 ∧
+      ∃ vm' ms, vm.handleStartTag (selTag name ns aux) = .ok (vm', ms) ∧
+        (ctlStep cfg s (.start name ns info (.startTag nm attrs ns' sc raw src base))).1.vm = some vm') ∧
     (∀ e, (ctlStep cfg s (.start name ns info (.startTag nm attrs ns' sc raw src base))).2 = some e →
       e = .handler ∨ Residual e) := by
   obtain ⟨hprog, ts, hsem⟩ := hJ.vm vm hv
@@ -359,7 +361,7 @@ theorem Full_start_no_panic (cfg : Cfg) (s : St) (hJ : J cfg s)
     have hok' := hok
     rw [hstep] at hok'
     obtain ⟨hfault, hvm⟩ := tokIf_start_frame cfg _ hs1f _ nm attrs ns' sc raw src base hok'
-    refine ⟨by rw [hstep]; exact hfault, ctlStep_valid hJ.valid _, ?_, ?_⟩
+    refine ⟨⟨by rw [hstep]; exact hfault, ctlStep_valid hJ.valid _, ?_, ?_⟩, vm', ms, hh, by rw [hstep, hvm]; rfl⟩
     · obtain ⟨vm2, ms2, d2, script, invs, hh2, _, hsim⟩ := start_refines cfg s vm hJ.fault hv hJ.valid.sync hJ.valid.wf
         name ns info aux ha nm attrs ns' sc raw src base hok
       rw [hh] at hh2
@@ -413,7 +415,9 @@ state satisfying `J` again (in particular NO fault was recorded: `pop_up_to`'s c
 all in range), or it fails at the residual "payload missing" site. -/
 theorem Full_end_no_panic (cfg : Cfg) (s : St) (hJ : J cfg s) (name : LocalName) (nm raw : Bytes) (src : Range) :
     ((ctlStep cfg s (.end_ name (.endTag nm raw src))).2 = none →
-      J cfg (ctlStep cfg s (.end_ name (.endTag nm raw src))).1) ∧
+      J cfg (ctlStep cfg s (.end_ name (.endTag nm raw src))).1 ∧
+      ∀ vm, s.vm = some vm → ∃ vm', vm.handleEndTag (nameBytes name) = .ok vm' ∧
+        (ctlStep cfg s (.end_ name (.endTag nm raw src))).1.vm = some vm') ∧
     (∀ e, (ctlStep cfg s (.end_ name (.endTag nm raw src))).2 = some e → Residual e) := by
   obtain ⟨sp, hinv⟩ := hJ.scope
   have hpre : ∀ vm, s.vm = some vm → PreOk vm.stack := by
@@ -424,11 +428,12 @@ theorem Full_end_no_panic (cfg : Cfg) (s : St) (hJ : J cfg s) (name : LocalName)
   obtain ⟨s2, h2, _⟩ := step_refines (fun _ _ => ⟨0, false, false⟩) cfg.selRegs cfg.docRegs sp (scopeState s) s.ord
     (.endTag (asciiLowerBytes (nameBytes name))) hinv (by simp [WfEvent])
   have hctl : ∃ s1, endTag s name = (s1, s1.flags) ∧ s1.fault = none ∧ DispWf s1.disp ∧
-      (∀ vmx, s1.vm = some vmx → vmx.program = theProgram cfg ∧ ∃ ts, SelVM.SemInv vmx ts (theProgram cfg).enableNthOfType) := by
+      (∀ vmx, s1.vm = some vmx → vmx.program = theProgram cfg ∧ ∃ ts, SelVM.SemInv vmx ts (theProgram cfg).enableNthOfType) ∧
+      (∀ vm, s.vm = some vm → ∃ vm', vm.handleEndTag (nameBytes name) = .ok vm' ∧ s1.vm = some vm') := by
     unfold endTag
     cases hv : s.vm with
     | none =>
-      exact ⟨s, by simp, hJ.fault, hJ.valid.wf, fun vmx hx => by rw [hv] at hx; cases hx⟩
+      exact ⟨s, by simp, hJ.fault, hJ.valid.wf, (fun vmx hx => by rw [hv] at hx; cases hx), (fun vm h => by cases h)⟩
     | some vm =>
       obtain ⟨hprog, ts, hsem⟩ := hJ.vm vm hv
       obtain ⟨vm1, he1, hp1, _, hsem1⟩ := hsem.handleEndTag (nameBytes name)
@@ -450,12 +455,16 @@ theorem Full_end_no_panic (cfg : Cfg) (s : St) (hJ : J cfg s) (name : LocalName)
         rw [heq, hsm] at h2
         simp [Except.map] at h2
       | ok d =>
-        refine ⟨_, rfl, hJ.fault, (stopMatchingPopped_good _ _ hsm hJ.valid.wf).1, ?_⟩
-        intro vmx hx
-        simp only [Option.some.injEq] at hx
-        subst hx
-        exact ⟨hp1.trans hprog, _, hsem1⟩
-  obtain ⟨s1, he1, hf1, hw1, hvm1⟩ := hctl
+        refine ⟨_, rfl, hJ.fault, (stopMatchingPopped_good _ _ hsm hJ.valid.wf).1, ?_, ?_⟩
+        · intro vmx hx
+          simp only [Option.some.injEq] at hx
+          subst hx
+          exact ⟨hp1.trans hprog, _, hsem1⟩
+        · intro vm0 h0
+          simp only [Option.some.injEq] at h0
+          subst h0
+          exact ⟨vm1, he1, rfl⟩
+  obtain ⟨s1, he1, hf1, hw1, hvm1, hvmrun⟩ := hctl
   have hstep : ctlStep cfg s (.end_ name (.endTag nm raw src)) = tokIf cfg s1.flags.nextEndTag s1 (.endTag nm raw src) := by
     simp only [ctlStep, he1]
   have htok : token cfg s1 (.endTag nm raw src) = tokEndTag s1 nm raw src := by
@@ -474,12 +483,15 @@ theorem Full_end_no_panic (cfg : Cfg) (s : St) (hJ : J cfg s) (name : LocalName)
         exact ⟨by rw [e5]; exact hf1, e2⟩
       · exact ⟨hf1, rfl⟩
     have hnf : (ctlStep cfg s (.end_ name (.endTag nm raw src))).1.fault = none := by rw [hstep]; exact hframe.1
-    refine ⟨hnf, ctlStep_valid hJ.valid _, ?_, ?_⟩
+    refine ⟨⟨hnf, ctlStep_valid hJ.valid _, ?_, ?_⟩, ?_⟩
     · obtain ⟨script, invs, hsim⟩ := end_refines cfg s hJ.fault hJ.valid.sync hJ.valid.wf hpre name nm raw src s.ord hok hnf
       exact ⟨_, (Full_event_C05 cfg s _ sp hinv script _ _ invs (by simp [WfEvent]) hsim).2⟩
     · intro vmx hvx
       rw [hstep, hframe.2] at hvx
       exact hvm1 vmx hvx
+    · intro vm0 h0
+      obtain ⟨vm', a, b⟩ := hvmrun vm0 h0
+      exact ⟨vm', a, by rw [hstep, hframe.2]; exact b⟩
   · intro e he
     rw [hstep] at he
     unfold tokIf at he
@@ -553,7 +565,9 @@ theorem ctlStep_no_panic (cfg : Cfg) (hb : IdsBounded (theProgram cfg) cfg.sels.
     | startTag nm attrs ns' sc raw src base =>
       cases hv : s.vm with
       | none => exact Full_start_no_panic_novm cfg s hJ hv name ns info nm attrs ns' sc raw src base
-      | some vm => exact Full_start_no_panic cfg s hJ hb vm hv name ns info aux ha nm attrs ns' sc raw src base
+      | some vm =>
+        obtain ⟨h1, h2⟩ := Full_start_no_panic cfg s hJ hb vm hv name ns info aux ha nm attrs ns' sc raw src base
+        exact ⟨fun h => (h1 h).1, h2⟩
     | endTag => simp [CtlEv.WellKinded] at hk
     | comment => simp [CtlEv.WellKinded] at hk
     | doctype => simp [CtlEv.WellKinded] at hk
@@ -562,7 +576,7 @@ theorem ctlStep_no_panic (cfg : Cfg) (hb : IdsBounded (theProgram cfg) cfg.sels.
     cases tok with
     | endTag nm raw src =>
       obtain ⟨h1, h2⟩ := Full_end_no_panic cfg s hJ name nm raw src
-      exact ⟨h1, fun e he => Or.inr (h2 e he)⟩
+      exact ⟨fun h => (h1 h).1, fun e he => Or.inr (h2 e he)⟩
     | startTag => simp [EvOk, CtlEv.WellKinded] at hev
     | comment => simp [EvOk, CtlEv.WellKinded] at hev
     | doctype => simp [EvOk, CtlEv.WellKinded] at hev
@@ -602,6 +616,86 @@ theorem Full_no_panic_protocol (cfg : Cfg) (hb : IdsBounded (theProgram cfg) cfg
     ((ctlSteps cfg (St.init cfg) evs).2 = none → J cfg (ctlSteps cfg (St.init cfg) evs).1) ∧
     (∀ e, (ctlSteps cfg (St.init cfg) evs).2 = some e → e = .handler ∨ Residual e) :=
   ctlSteps_no_panic cfg hb evs _ (J_init cfg) hev
+
+
+/-! ### the VM along a run: package selvm's `Vm.step` (C04) -/
+
+/-- the tag event package selvm sees -/
+def selEvOf : CtlEv → Option Sel.Event
+  | .start name ns info _ => (auxConv info).map fun aux => .start (selTag name ns aux)
+  | .end_ name _ => some (.end_ (nameBytes name))
+  | .other _ => none
+
+/-- package selvm's VM over a tag-event sequence (`Vm.step`, the function `Vm.runAux` /
+`runSelectors` iterate) -/
+def vmRun (vm : SelVM.Vm) : List Sel.Event → Except SelVM.Panic SelVM.Vm
+  | [] => .ok vm
+  | e :: es =>
+    match vm.step e with
+    | .ok r => vmRun r.1 es
+    | .error p => .error p
+
+/-- **Full_vm_run.** Along a protocol-conforming event sequence that ends without error, the VM inside the
+real controller goes through exactly the states of package selvm's `Vm.step` on the extracted tag events
+(names as handed over, the VM's namespace, the attributes handed over). C04's theorems
+(`C04_vm_refines_css`, `C04_vm_never_panics`, `C04_independence`, …) are about this iteration. -/
+theorem Full_vm_run (cfg : Cfg) (hb : IdsBounded (theProgram cfg) cfg.sels.length) (evs : List CtlEv) :
+    ∀ (s : St) (vm : SelVM.Vm), J cfg s → s.vm = some vm → (∀ e ∈ evs, EvOk e) →
+      (ctlSteps cfg s evs).2 = none →
+      ∃ vm', vmRun vm (evs.filterMap selEvOf) = .ok vm' ∧ (ctlSteps cfg s evs).1.vm = some vm' := by
+  induction evs with
+  | nil => intro s vm _ hv _ _; exact ⟨vm, rfl, hv⟩
+  | cons ev evs ih =>
+    intro s vm hJ hv hev hok
+    have hev0 := hev ev (by simp)
+    simp only [ctlSteps] at hok ⊢
+    cases hr : (ctlStep cfg s ev).2 with
+    | some err => simp [hr] at hok
+    | none =>
+      simp only [hr] at hok ⊢
+      obtain ⟨hJ1, _⟩ := ctlStep_no_panic cfg hb s hJ ev hev0
+      have hJ' := hJ1 hr
+      have hrest := fun vm1 (h1 : (ctlStep cfg s ev).1.vm = some vm1) =>
+        ih (ctlStep cfg s ev).1 vm1 hJ' h1 (fun e he => hev e (by simp [he])) hok
+      cases ev with
+      | start name ns info tok =>
+        obtain ⟨⟨aux, ha⟩, hk⟩ := hev0
+        cases tok with
+        | startTag nm attrs ns' sc raw src base =>
+          obtain ⟨h1, _⟩ := Full_start_no_panic cfg s hJ hb vm hv name ns info aux ha nm attrs ns' sc raw src base
+          obtain ⟨_, vm1, ms, hh, hvm1⟩ := h1 hr
+          obtain ⟨vm', hrun, hfin⟩ := hrest vm1 hvm1
+          refine ⟨vm', ?_, hfin⟩
+          simp only [List.filterMap_cons, selEvOf, ha, Option.map_some, vmRun, SelVM.Vm.step, hh]
+          exact hrun
+        | endTag => simp [CtlEv.WellKinded] at hk
+        | comment => simp [CtlEv.WellKinded] at hk
+        | doctype => simp [CtlEv.WellKinded] at hk
+        | text => simp [CtlEv.WellKinded] at hk
+      | end_ name tok =>
+        cases tok with
+        | endTag nm raw src =>
+          obtain ⟨h1, _⟩ := Full_end_no_panic cfg s hJ name nm raw src
+          obtain ⟨_, hvmrun⟩ := h1 hr
+          obtain ⟨vm1, hh, hvm1⟩ := hvmrun vm hv
+          obtain ⟨vm', hrun, hfin⟩ := hrest vm1 hvm1
+          refine ⟨vm', ?_, hfin⟩
+          simp only [List.filterMap_cons, selEvOf, vmRun, SelVM.Vm.step, hh, bind, Except.bind, pure, Except.pure]
+          exact hrun
+        | startTag => simp [EvOk, CtlEv.WellKinded] at hev0
+        | comment => simp [EvOk, CtlEv.WellKinded] at hev0
+        | doctype => simp [EvOk, CtlEv.WellKinded] at hev0
+        | text => simp [EvOk, CtlEv.WellKinded] at hev0
+      | other tok =>
+        have hvm1 : (ctlStep cfg s (.other tok)).1.vm = some vm := by
+          simp only [ctlStep]
+          unfold tokIf
+          split
+          · obtain ⟨_, b, _⟩ := tokOther_frame cfg s tok hev0 hJ.fault
+            rw [b]; exact hv
+          · exact hv
+        obtain ⟨vm', hrun, hfin⟩ := hrest vm hvm1
+        exact ⟨vm', by rw [List.filterMap_cons_none (by rfl)]; exact hrun, hfin⟩
 
 /-- **Full statement** (NOT proved): `IdsBounded` for every selector set. `Ast::add_selector` only inserts the
 registration index, and the compiler copies node ids into instructions; the proof is an induction over
